@@ -272,6 +272,10 @@ def run(cx):
     check_headers(cx, "C02.p", "C02.q")
     from props.C11 import window_limited_still_syncs
     window_limited_still_syncs(cx, "C02.r")
+    # a stale channel base marker left behind in the window makes a later packet of another channel look like a
+    # delivered base: its Reliable parent is then taken as satisfied
+    from props.C01 import inst_channel_markers
+    inst_channel_markers(cx, "C02.s")
 
 
 SELFTEST = [
